@@ -11,7 +11,7 @@ use crate::prelude::*;
 use crate::case::{Api, Be, Fam};
 use crate::mem::Place;
 use crate::p_bytes::build_hay;
-use crate::p_sub::{exhaustive_pairs, level, random_pairs, structured_pairs};
+use crate::p_sub::{exhaustive_pairs, level, long_pairs, random_pairs, structured_pairs};
 use crate::runner::{Runner, Tier};
 #[cfg(not(target_arch = "wasm32"))]
 use std::io::Write;
@@ -118,6 +118,31 @@ pub fn transcript(r: &mut Runner, stride: u64, dump: u64, path: Option<&str>) {
             tx.run(r, Api::new(Fam::Count, Be::All, 1, false, 0), &buf, &nd, place, len > 0);
         }
     }
+    // long haystacks: thresholds far above the sweep (page size, 64 KiB)
+    if r.tier != Tier::Miri {
+        for (li, &len) in [4095usize, 4096, 4097, 8192, 8193, 65539].iter().enumerate() {
+            unit += 1;
+            if !r.mine(unit) {
+                continue;
+            }
+            for (k, pi) in [0usize, 1, 31, len / 2, len - 33, len - 2, len - 1, len].into_iter().enumerate() {
+                let nd = nsets[(li + k) % 4];
+                let p = if pi == len { None } else { Some(pi) };
+                let place = [Place::Arena(0), Place::Arena(1), Place::GuardR, Place::GuardL][(li + k) % 4];
+                for n in 1..=3u8 {
+                    for rev in [false, true] {
+                        build_hay(&mut buf, len, p, &nd[..n as usize], rev, (li + k) % 4);
+                        for be in [Be::Top, Be::All] {
+                            tx.run(r, Api::new(Fam::Byte, be, n, rev, 0), &buf, &nd, place, true);
+                        }
+                    }
+                }
+                build_hay(&mut buf, len, p, &nd[..1], false, 2);
+                tx.run(r, Api::new(Fam::Count, Be::Top, 1, false, 0), &buf, &nd, place, true);
+                tx.run(r, Api::new(Fam::Count, Be::All, 1, false, 0), &buf, &nd, place, true);
+            }
+        }
+    }
     // substring searches
     {
         let mut run_pair = |r: &mut Runner, hay: &[u8], ndl: &[u8], k: u64| {
@@ -143,6 +168,7 @@ pub fn transcript(r: &mut Runner, stride: u64, dump: u64, path: Option<&str>) {
         exhaustive_pairs(r, b"ab", nmax, hmax, &[(0, 0), (70, 30)], &mut run_pair);
         structured_pairs(r, if lvl >= 2 { 1100 } else { 320 }, &mut run_pair);
         random_pairs(r, false, &mut run_pair);
+        long_pairs(r, &mut run_pair);
     }
     // transcript hash + file
     r.rep.count("transcript_entries", tx.entries);
